@@ -23,6 +23,7 @@ def fmtRat (r : Rat) : String := if r.den == 1 then toString r.num else s!"{r.nu
 
 structure TaskDef where
   routine : Bool
+  plain : Bool := false           -- a plain Python function: every sched call wraps it anew
   behs : List (List String)       -- remaining behaviours
   dead : Bool := false            -- a Routine that ended or raised
 
@@ -44,6 +45,7 @@ structure G where
   bad : Bool := false
   -- a task stopped in the middle of its step (atom `!`): clock, remaining atoms, result, task, its logical time
   permanent : List Nat := []        -- TempoClocks with `permanent = True`
+  wraps : Nat := 0                  -- Function wrappers made so far for plain functions
   paused : Option (CK × List String × String × Nat × Rat) := none
   blocked : List (CK × List String) := []      -- calls of the second thread waiting for the lock
 
@@ -59,11 +61,25 @@ def parseCK (s : String) : Option CK :=
 def ckIdx : CK → Nat
   | .sys => 0 | .app => 1 | .tempo i => i + 2
 
+/-- model task ids: a script task `t`, or `t + 1000·n` for the n-th wrapper of a plain function `t` -/
+def scriptTask (t : Nat) : Nat := t % 1000
+
+/-- the task object a sched call queues: the object itself, or a fresh wrapper of a plain function -/
+def schedTask (t : Nat) : M Nat := do
+  let g ← get
+  match (g.tasks[t]?).join with
+  | some td =>
+    if td.plain then
+      set { g with wraps := g.wraps + 1 }
+      return t + 1000 * (g.wraps + 1)
+    else return t
+  | none => return t
+
 def emit (s : String) : M Unit := modify fun g => { g with out := g.out.push s }
 
 def fmtEv (k : String) : Ev → Option String
-  | .awake x _ _ _ at_ secs => some s!"A{k}:{x.task}:{fmtRat secs}:{fmtRat x.key}:{fmtRat at_}"
-  | .err x => some s!"E{k}:{x.task}"
+  | .awake x _ _ _ at_ secs => some s!"A{k}:{x.task % 1000}:{fmtRat secs}:{fmtRat x.key}:{fmtRat at_}"
+  | .err x => some s!"E{k}:{x.task % 1000}"
   | .notify w => some s!"N{k}:{if w then 1 else 0}"
   | .wait none => some s!"W{k}:N"
   | .wait (some t) => some s!"W{k}:{fmtRat t}"
@@ -124,6 +140,7 @@ def clockOp (ck : CK) (w : List String) : M (Option String) := do
   | .app, ["q", d, t] =>
     match parseRat d, t.toNat? with
     | some d, some t =>
+      let t ← schedTask t
       let _ ← appMove (.schedAdd d t g.now)
       let _ ← appMove .schedNotify
       return none
@@ -140,12 +157,14 @@ def clockOp (ck : CK) (w : List String) : M (Option String) := do
         match parseRat k, t.toNat? with
         | some k, some t =>
           if stopped then return some "ClockNotRunning"
+          let t ← schedTask t
           let _ ← clockMove ck (.op (.sched k t)); return none
         | _, _ => modify (fun g => { g with bad := true }); return none
       | ["q", d, t] =>
         match parseRat d, t.toNat? with
         | some d, some t =>
           if stopped then return some "ClockNotRunning"
+          let t ← schedTask t
           let _ ← clockMove ck (.op (.sched (c.tempo.secs2beats g.logical + d) t)); return none
         | _, _ => modify (fun g => { g with bad := true }); return none
       | ["c"] =>
@@ -217,8 +236,9 @@ def runAtoms : List String → M AtomsResult
 /-- `r:inf`: an infinite delta is "never" (nothing is queued), i.e. the move `finish done`. -/
 def parseResult (res : String) : Result :=
   if res == "r:inf" then .done
-  else if res.startsWith "r:" then
-    match parseRat (res.drop 2).toString with
+  else if res.startsWith "r:" || res.startsWith "ri:" || res.startsWith "rf:" then
+    -- (an IntEnum member / a float subclass is a number like any other)
+    match parseRat ((res.splitOn ":").getD 1 "") with
     | some d => .resched d
     | none => .done
   else if res == "x" then .raise else .done
@@ -243,7 +263,7 @@ def runClockThread (ck : CK) : Nat → M Unit
               set { g0 with paused := none }
               pure (rest, res, lt)
           | none => do
-              let (atoms, res) ← nextBeh x.task
+              let (atoms, res) ← nextBeh (scriptTask x.task)
               pure (atoms, res, c.tempo.beats2secs x.key)
         let saved := (← get).logical
         modify fun g => { g with logical := lt, inTask := true }
@@ -257,7 +277,7 @@ def runClockThread (ck : CK) : Nat → M Unit
           let _ ← clockMove ck (.finish (parseResult res))
           runClockThread ck fuel
         | .raised =>
-          killTask x.task
+          killTask (scriptTask x.task)
           let _ ← clockMove ck (.finish .raise)
           runClockThread ck fuel
       | _ => return
@@ -280,7 +300,7 @@ def runAppThread (stopInWindow : Bool) : Nat → M Unit
         | some (_, rest, res, _, _) => do
             set { g with paused := none }
             pure (rest, res)
-        | none => nextBeh x.task
+        | none => nextBeh (scriptTask x.task)
       let saved := g.logical
       modify fun g => { g with logical := x.key, inTask := true }
       let r ← runAtoms atoms
@@ -294,7 +314,7 @@ def runAppThread (stopInWindow : Bool) : Nat → M Unit
         let _ ← appMove (.finish (parseResult res) now)
         runAppThread stopInWindow fuel
       | .raised =>
-        killTask x.task
+        killTask (scriptTask x.task)
         let _ ← appMove (.finish .raise now)
         runAppThread stopInWindow fuel
     | _ => return
@@ -379,7 +399,7 @@ def runPolicy (dt late : Rat) : M Unit := do
   modify fun g => { g with now := if g.now < T then T else g.now }
 
 def dumpQ (k : String) (q : SQ) : String :=
-  k ++ "[" ++ ",".intercalate (q.map fun x => s!"{fmtRat x.key}:{x.task}") ++ "]"
+  k ++ "[" ++ ",".intercalate (q.map fun x => s!"{fmtRat x.key}:{x.task % 1000}") ++ "]"
 
 def doDump : M String := do
   let g ← get
@@ -446,7 +466,7 @@ def doLine1 (ws : List String) : M String := do
     | some id =>
       modify fun g =>
         let tasks := if g.tasks.size ≤ id then g.tasks ++ Array.replicate (id + 1 - g.tasks.size) none else g.tasks
-        { g with tasks := tasks.setIfInBounds id (some { routine := kind == "R", behs := splitBehs rest }) }
+        { g with tasks := tasks.setIfInBounds id (some { routine := kind == "R", plain := kind == "P", behs := splitBehs rest }) }
       return "-"
     | none => return "bad-line"
   | "new" :: i :: rate :: flags =>
@@ -519,6 +539,7 @@ def doLine1 (ws : List String) : M String := do
   | ["half", d, t] =>
     match parseRat d, t.toNat? with
     | some d, some t =>
+      let t ← schedTask t
       let g ← get
       let _ ← appMove (.schedAdd d t g.now)
       modify fun g => { g with halves := g.halves + 1 }
